@@ -127,5 +127,5 @@ def cases(tier, seed, ctx=None):
     # way to it through a small window: it still receives all of it, TLS and plain alike
     for ending in (2, 3):
         yield ("tlsraw", [b"GET /bighuge HTTP/1.1\r\nHost: h\r\n\r\n", ending, 0, [], 1, 0, 6], "tlsraw-half-close-while-flushing")
-    # a healthy but slow client that needs more than 6 s to read a 12 MiB response that was closed at once: it receives all of it
-    yield ("tlsraw", [b"GET /bighuge HTTP/1.1\r\nHost: h\r\n\r\n", 0, 0, [], 1, 0, 30], "tlsraw-slow-client-takes-seconds")
+    # a healthy but slow client that needs about 12 s to read a 12 MiB response that was closed at once: it receives all of it
+    yield ("tlsraw", [b"GET /bighuge HTTP/1.1\r\nHost: h\r\n\r\n", 0, 0, [], 1, 0, 60], "tlsraw-slow-client-takes-seconds")
